@@ -607,8 +607,8 @@ pub fn bodies(tier: &str) -> Vec<BodySpec> {
     let q = tier == "quick";
     let b = |body: SkewBody, bound: usize, secs: f64| BodySpec { body: Arc::new(body), bound, secs };
     let mut v = vec![
-        b(SkewBody { name: "write skew: get a/ins b || get b/ins a", txs: vec![vec![Step::Get("a"), Step::Insert("b", "1")], vec![Step::Get("b"), Step::Insert("a", "1")]] }, 2, if q { 6.0 } else { 200.0 }),
-        b(SkewBody { name: "lost update: fetch_update a || fetch_update a", txs: vec![vec![Step::FetchUpdate("a", "append")], vec![Step::FetchUpdate("a", "append")]] }, 2, if q { 5.0 } else { 200.0 }),
+        b(SkewBody { name: "write skew: get a/ins b || get b/ins a", txs: vec![vec![Step::Get("a"), Step::Insert("b", "1")], vec![Step::Get("b"), Step::Insert("a", "1")]] }, if q { 2 } else { 3 }, if q { 6.0 } else { 300.0 }),
+        b(SkewBody { name: "lost update: fetch_update a || fetch_update a", txs: vec![vec![Step::FetchUpdate("a", "append")], vec![Step::FetchUpdate("a", "append")]] }, if q { 2 } else { 3 }, if q { 5.0 } else { 300.0 }),
     ];
     if !q {
         v.push(b(SkewBody { name: "3 tx: scan/ins || ins || get/rem", txs: vec![vec![Step::Iter, Step::Insert("ab", "1")], vec![Step::Insert("a", "1")], vec![Step::Get("a"), Step::Remove("b")]] }, 2, 300.0));
